@@ -416,7 +416,7 @@ func Attr(s *Src, kind int) bgp.PathAttributeInterface {
 		a, _ := bgp.NewPathAttributeAggregator(ASN(s), s.V4())
 		return a
 	case AttrCommunities:
-		n := s.Len(70)
+		n := 1 + s.Len(69) // an empty COMMUNITIES attribute is malformed (RFC 7606 7.8)
 		v := make([]uint32, n)
 		for i := range v {
 			v[i] = s.U32()
